@@ -599,20 +599,27 @@ def ok_query(P, R, rule='C11.GRD.4'):
     if not cmpb:
         raise AnalysisBroken('iauth_xreply_ok no longer compares the service name')
     n = 0
+    # result sites: `return <constant>`, or - in single-exit form - the assignments of a constant to the local returned
+    results = []
+    retvars = {s.ev['val']['name'] for s in f.sites() if s.ev['k'] == 'ret' and is_var(s.ev.get('val')) and s.ev['val'].get('sc') == 'local'}
     for s in f.sites():
-        if s.ev['k'] != 'ret':
-            continue
+        if s.ev['k'] == 'ret' and s.ev.get('val') is not None and not (is_var(s.ev['val']) and s.ev['val']['name'] in retvars):
+            results.append((s, const_of(s.ev['val']) if isinstance(const_of(s.ev['val']), int) else sx(s.ev['val'])))
+        if s.ev['k'] == 'store' and is_var(s.ev.get('lhs')) and s.ev['lhs']['name'] in retvars and s.ev.get('op') == '=':
+            results.append((s, const_of(s.ev['rhs']) if isinstance(const_of(s.ev.get('rhs')), int) else sx(s.ev.get('rhs'))))
+
+    def maskrel(g):
+        l = g[0]
+        return isinstance(l, dict) and l.get('k') == 'bin' and l.get('op') == '&' and any(isinstance(x, dict) and x.get('k') == 'mem' and str(x.get('field', '')).endswith('_mask') for x in walk(l))
+    for s, v in results:
         gs = f.guards(s.bid)
-        named = any(isinstance(g[0], dict) and g[0].get('k') == 'callref' and g[0].get('callee') in ('strcasecmp', 'strcmp') and g[1] == '==' and const_of(g[2]) == 0 for g in gs)
-        if not named:
-            continue
-        n += 1
-        v = const_of(s.ev.get('val'))
         oks = [g for g in gs if okrel(g)]
         if v == 1:
-            R.ob(rule, any(g[1] == '!=' for g in oks), s, 'the result 1 ("OK was received") is returned only when the service\'s bit is in the ok mask', key='okq:1')
-        else:
-            R.ob(rule, any(g[1] == '==' for g in oks), s, 'the result %s is returned only after the ok mask was tested and the service\'s bit found clear' % sx(s.ev.get('val')), key='okq:%s' % sx(s.ev.get('val')))
+            n += 1
+            R.ob(rule, any(g[1] == '!=' for g in oks), s, 'the result 1 ("OK was received") is given only when the service\'s bit is in the ok mask', key='okq:1')
+        elif any(maskrel(g) for g in gs):
+            n += 1
+            R.ob(rule, any(g[1] == '==' for g in oks), s, 'the result %s is given only after the ok mask was tested and the service\'s bit found clear' % v, key='okq:%s' % v)
     R.floor(rule, 3, 'results for a named service')
 
 
